@@ -124,6 +124,7 @@ func callFuzz(c *CaseCtx, recv reflect.Value, m reflect.Method, r *rand.Rand, sc
 					fmt.Sprintf("%s [%s] panicked: %v\n%s", desc, state, p, firstN(st, 1500)))
 			}
 		}()
+		callBudget.reset()
 		outs := recv.MethodByName(m.Name).Call(args)
 		c.Stat("api_calls", 1)
 		isErr := false
@@ -164,6 +165,8 @@ func runC20(c *CaseCtx) {
 		c.Violate("open-failed:"+errClass(err.Error()), "api-fuzz", "Open failed: "+err.Error())
 		return
 	}
+	nutsdb.VerifSetYieldHook(callBudget.hook)
+	defer nutsdb.VerifSetYieldHook(nil)
 	cov := map[string]int{}
 	// pre-populate with a short history so that calls hit non-empty structures
 	u := &Universe{Buckets: []string{"b1", "b2"}, KVKeys: [][]byte{[]byte("a"), []byte("k1"), []byte("1")}, ListKeys: [][]byte{[]byte("l1")}, SetKeys: [][]byte{[]byte("s1")}, DS: cfg.Mode == 0}
